@@ -14,11 +14,13 @@ Hypothesis content_isman : forall p, content p <> [] -> isman p = true.
 
 Record J (s : ostore) : Prop := mkJ {
   j_inv : Inv content (o_graph s);
-  (* every stored manifest is a root of index.json *)
+  (* every stored manifest has a by-digest entry in the resolver *)
   j_root : forall p, isman p = true -> In p (o_blobs s) -> In p (o_bydigest s);
   (* graph manifests = stored manifests *)
   j_graph_stored : forall p, In p (g_nodes (o_graph s)) -> isman p = true -> In p (o_blobs s);
-  j_stored_graph : forall p, In p (o_blobs s) -> isman p = true -> In p (g_nodes (o_graph s))
+  j_stored_graph : forall p, In p (o_blobs s) -> isman p = true -> In p (g_nodes (o_graph s));
+  (* every stored manifest is named by the index.json last written *)
+  j_disk : forall p, isman p = true -> In p (o_blobs s) -> In p (o_dbydigest s) \/ In p (o_dtagged s)
 }.
 
 Lemma J_empty : J empty_store.
@@ -49,60 +51,69 @@ Proof.
 Qed.
 
 Lemma ostep_J fuel s o :
-  J s -> J (fst (ostep true content isman fuel s o)).
+  J s -> J (fst (ostep true true content isman fuel s o)).
 Proof.
-  intros HJ. destruct HJ as [H1 H2 H3 H4]. destruct o; simpl.
+  intros HJ. destruct HJ as [H1 H2 H3 H4 H5]. destruct o; cbn [ostep].
   - (* Push *)
-    destruct (smem n (o_blobs s)) eqn:M; simpl; [constructor; auto|].
-    constructor; simpl.
+    destruct (smem n (o_blobs s)) eqn:M; [constructor; auto|].
+    destruct (isman n) eqn:Mn; constructor; simpl.
     + apply index_Inv, H1.
-    + intros p Hm [<-|Hb].
-      * rewrite Hm. apply In_sadd. auto.
-      * specialize (H2 p Hm Hb). destruct (isman n); auto. apply In_sadd. auto.
+    + intros p Hm [<-|Hb]; apply In_sadd; auto.
     + intros p Hp Hm. apply In_sadd in Hp. destruct Hp as [->|Hp]; [left; reflexivity | right; apply H3; auto].
     + intros p [<-|Hb] Hm; apply In_sadd; [left; reflexivity | right; apply H4; auto].
+    + intros p Hm [<-|Hb]; left; apply In_sadd; auto.
+    + apply index_Inv, H1.
+    + intros p Hm [<-|Hb]; [congruence | auto].
+    + intros p Hp Hm. apply In_sadd in Hp. destruct Hp as [->|Hp]; [left; reflexivity | right; apply H3; auto].
+    + intros p [<-|Hb] Hm; apply In_sadd; [left; reflexivity | right; apply H4; auto].
+    + intros p Hm [<-|Hb]; [congruence | auto].
   - (* Tag *)
-    destruct (smem n (o_blobs s)) eqn:M; simpl; [|constructor; auto].
+    destruct (smem n (o_blobs s)) eqn:M; [|constructor; auto].
     constructor; simpl; auto.
-    intros p Hm Hb. apply In_sadd. auto.
+    + intros p Hm Hb. apply In_sadd. auto.
+    + intros p Hm Hb. left. apply In_sadd. auto.
   - (* Untag *)
     constructor; simpl; auto.
   - (* Delete *)
-    constructor; simpl.
-    + apply remove_Inv, H1.
-    + intros p Hm Hb. apply In_sdel in Hb. destruct Hb as [Hne Hb].
-      apply In_sdel. auto.
-    + intros p Hp Hm. apply remove_ord_nodes in Hp. destruct Hp as [Hne Hp].
-      apply In_sdel. auto.
-    + intros p Hb Hm. apply In_sdel in Hb. destruct Hb as [Hne Hb].
-      apply remove_ord_nodes. auto.
+    assert (Inv content (fst (remove (o_graph s) n))) as R1 by (apply remove_Inv, H1).
+    assert (forall p, isman p = true -> In p (sdel n (o_blobs s)) -> In p (sdel n (o_bydigest s))) as R2.
+    { intros p Hm Hb. apply In_sdel in Hb. destruct Hb as [Hne Hb]. apply In_sdel. auto. }
+    assert (forall p, In p (g_nodes (fst (remove (o_graph s) n))) -> isman p = true -> In p (sdel n (o_blobs s))) as R3.
+    { intros p Hp Hm. apply remove_ord_nodes in Hp. destruct Hp as [Hne Hp]. apply In_sdel. auto. }
+    assert (forall p, In p (sdel n (o_blobs s)) -> isman p = true -> In p (g_nodes (fst (remove (o_graph s) n)))) as R4.
+    { intros p Hb Hm. apply In_sdel in Hb. destruct Hb as [Hne Hb]. apply remove_ord_nodes. auto. }
+    destruct (smem n (o_bydigest s) || smem n (o_tagged s)); constructor; simpl; auto.
+    intros p Hm Hb. apply In_sdel in Hb. destruct Hb as [Hne Hb]. auto.
   - (* GC *)
     destruct (load content (o_sok isman s) fuel (o_tagged s ++ kept)) as [g' ok] eqn:E.
-    destruct ok; simpl; [|constructor; auto].
+    destruct ok; [|constructor; auto].
     destruct (load_J_nodes s fuel _ g' E) as [Ha Hb].
-    constructor; simpl.
+    assert (forall p, isman p = true -> In p (filter (exists_node g') (o_blobs s)) ->
+                      In p ((o_tagged s ++ kept) ++ filter (exists_node g') (o_bydigest s))) as R2.
+    { intros p Hm Hp. apply filter_In in Hp. destruct Hp as [Hp Hx].
+      apply in_app_iff. right. apply filter_In. auto. }
+    constructor; simpl; auto.
     + pose proof (load_Inv content (o_sok isman s) fuel (o_tagged s ++ kept)) as HI.
       rewrite E in HI. exact HI.
-    + intros p Hm Hp. apply filter_In in Hp. destruct Hp as [Hp Hx].
-      apply in_app_iff. right. apply filter_In. auto.
     + intros p Hp Hm. apply filter_In. split; [apply Ha; auto | apply exists_node_In; auto].
     + intros p Hp Hm. apply filter_In in Hp. destruct Hp as [_ Hx]. apply exists_node_In, Hx.
   - (* Reopen *)
-    destruct (load content (o_sok isman s) fuel (o_tagged s ++ o_bydigest s)) as [g' ok] eqn:E.
-    destruct ok; simpl; [|constructor; auto].
+    destruct (load content (o_sok isman s) fuel (o_dtagged s ++ o_dbydigest s)) as [g' ok] eqn:E.
+    destruct ok; [|constructor; auto].
     destruct (load_J_nodes s fuel _ g' E) as [Ha Hb].
+    assert (forall p, isman p = true -> In p (o_blobs s) -> In p (o_dtagged s ++ o_dbydigest s)) as R2.
+    { intros p Hm Hp. apply in_app_iff. destruct (H5 p Hm Hp); auto. }
     constructor; simpl; auto.
-    + pose proof (load_Inv content (o_sok isman s) fuel (o_tagged s ++ o_bydigest s)) as HI.
-      rewrite E in HI. exact HI.
-    + intros p Hp Hm. apply Hb; auto. apply in_app_iff. auto.
+    pose proof (load_Inv content (o_sok isman s) fuel (o_dtagged s ++ o_dbydigest s)) as HI.
+    rewrite E in HI. exact HI.
 Qed.
 
-Lemma orun_J fuel ops : forall s, J s -> J (fst (orun true content isman fuel s ops)).
+Lemma orun_J fuel ops : forall s, J s -> J (fst (orun true true content isman fuel s ops)).
 Proof.
   induction ops as [|o r IH]; intros s HJ; simpl; auto.
   pose proof (ostep_J fuel s o HJ) as H.
-  destruct (ostep true content isman fuel s o) as [s1 ok1]. simpl in H.
-  specialize (IH s1 H). destruct (orun true content isman fuel s1 r) as [s2 ok2]. exact IH.
+  destruct (ostep true true content isman fuel s o) as [s1 ok1]. simpl in H.
+  specialize (IH s1 H). destruct (orun true true content isman fuel s1 r) as [s2 ok2]. exact IH.
 Qed.
 
 (* Predecessors = the stored manifests, indexes and artifact manifests referencing n *)
@@ -110,7 +121,7 @@ Lemma J_exact s : J s -> forall n,
   NoDup (predecessors (o_graph s) n) /\
   forall p, In p (predecessors (o_graph s) n) <-> In p (o_blobs s) /\ In n (content p).
 Proof.
-  intros [H1 H2 H3 H4] n.
+  intros [H1 H2 H3 H4 H5] n.
   destruct (predecessors_exact content (o_graph s) H1 n) as [Hd Hm]. split; auto.
   intro p. rewrite Hm. split; intros [Hp Hn]; split; auto.
   - apply H3; auto. apply content_isman. intro E. rewrite E in Hn. destruct Hn.
@@ -118,15 +129,15 @@ Proof.
 Qed.
 
 Lemma store_history_exact fuel ops n :
-  let s := fst (orun true content isman fuel empty_store ops) in
+  let s := fst (orun true true content isman fuel empty_store ops) in
   NoDup (predecessors (o_graph s) n) /\
   forall p, In p (predecessors (o_graph s) n) <-> In p (o_blobs s) /\ In n (content p).
 Proof. intro s. apply J_exact. apply orun_J, J_empty. Qed.
 
 (* closing and opening the layout again changes no answer *)
 Lemma store_reopen_same fuel ops s' :
-  let s := fst (orun true content isman fuel empty_store ops) in
-  ostep true content isman fuel s PReopen = (s', true) ->
+  let s := fst (orun true true content isman fuel empty_store ops) in
+  ostep true true content isman fuel s PReopen = (s', true) ->
   o_blobs s' = o_blobs s /\
   forall n, Permutation (predecessors (o_graph s') n) (predecessors (o_graph s) n).
 Proof.
@@ -135,7 +146,7 @@ Proof.
   assert (J s') as HJ'.
   { pose proof (ostep_J fuel s PReopen HJ) as H1. rewrite H in H1. exact H1. }
   assert (o_blobs s' = o_blobs s) as Hb.
-  { simpl in H. destruct (load content (o_sok isman s) fuel (o_tagged s ++ o_bydigest s)) as [g' ok].
+  { cbn [ostep] in H. destruct (load content (o_sok isman s) fuel (o_dtagged s ++ o_dbydigest s)) as [g' ok].
     destruct ok; inversion H; reflexivity. }
   split; auto. intro n.
   destruct (J_exact s HJ n) as [Hd Hm]. destruct (J_exact s' HJ' n) as [Hd' Hm'].
@@ -149,25 +160,70 @@ End Store.
 Definition pf_ct : amap := [(2, [0]); (3, [2])]%N.
 Definition pf_isman (x : node) : bool := N.leb 2 x.
 Definition pf_ops : list oop := [PPush 0; PPush 2; PPush 3; PTag 3; PGC []; PDelete 3; PReopen]%N.
+(* the chain needed when GC writes index.json too early: reopen BETWEEN GC and Delete *)
+Definition pf_ops2 : list oop :=
+  [PPush 0; PPush 2; PPush 3; PTag 3; PGC []; PReopen; PDelete 3; PReopen]%N.
+
+Lemma pf_content_isman : forall q, ctab pf_ct q <> [] -> pf_isman q = true.
+Proof.
+  intros q Hq. unfold pf_isman. apply N.leb_le.
+  destruct (N.le_gt_cases 2 q) as [H|H]; auto. exfalso. apply Hq.
+  unfold ctab, getd, pf_ct. simpl.
+  destruct (N.eqb_spec q 2); [lia|]. destruct (N.eqb_spec q 3); [lia|]. reflexivity.
+Qed.
 
 Lemma store_history_exact_prefix_refuted :
   exists content isman fuel ops n p,
     (forall q, content q <> [] -> isman q = true) /\
-    let r := orun false content isman fuel empty_store ops in
+    let r := orun false true content isman fuel empty_store ops in
     snd r = true /\ In p (o_blobs (fst r)) /\ In n (content p) /\
     ~ In p (predecessors (o_graph (fst r)) n).
 Proof.
-  exists (ctab pf_ct), pf_isman, 50, pf_ops, 0%N, 2%N.
-  split.
-  { intros q Hq. unfold pf_isman. apply N.leb_le.
-    destruct (N.le_gt_cases 2 q) as [H|H]; auto. exfalso. apply Hq.
-    unfold ctab, getd, pf_ct. simpl.
-    destruct (N.eqb_spec q 2); [lia|]. destruct (N.eqb_spec q 3); [lia|]. reflexivity. }
+  exists (ctab pf_ct), pf_isman, 50%nat, pf_ops, 0%N, 2%N.
+  split; [exact pf_content_isman|].
   vm_compute. repeat split; auto.
 Qed.
 
-(* the same history on the repaired code *)
+(* Store.GC writing index.json BEFORE the digest references are restored: the file names
+   only the tagged roots; reopen, delete the root (AutoGC off), reopen: 2 is lost. *)
+Lemma store_gc_save_early_refuted :
+  exists content isman fuel ops n p,
+    (forall q, content q <> [] -> isman q = true) /\
+    let r := orun true false content isman fuel empty_store ops in
+    snd r = true /\ In p (o_blobs (fst r)) /\ In n (content p) /\
+    ~ In p (predecessors (o_graph (fst r)) n).
+Proof.
+  exists (ctab pf_ct), pf_isman, 50%nat, pf_ops2, 0%N, 2%N.
+  split; [exact pf_content_isman|].
+  vm_compute. repeat split; auto.
+Qed.
+
+(* ... and without the reopen in between the early save is masked (the live resolver is
+   complete and Delete rewrites the file): why the chain GC -> reopen -> Delete -> reopen matters *)
+Lemma store_gc_save_early_masked :
+  let r := orun true false (ctab pf_ct) pf_isman 50 empty_store pf_ops in
+  snd r = true /\ predecessors (o_graph (fst r)) 0%N = [2%N].
+Proof. vm_compute. repeat split. Qed.
+
+(* the same histories on the code as it is *)
 Lemma store_history_fixed_example :
-  let r := orun true (ctab pf_ct) pf_isman 50 empty_store pf_ops in
+  let r := orun true true (ctab pf_ct) pf_isman 50 empty_store pf_ops in
   snd r = true /\ o_blobs (fst r) = [2; 0]%N /\ predecessors (o_graph (fst r)) 0%N = [2%N].
 Proof. vm_compute. repeat split. Qed.
+Lemma store_history_fixed_example2 :
+  let r := orun true true (ctab pf_ct) pf_isman 50 empty_store pf_ops2 in
+  snd r = true /\ o_blobs (fst r) = [2; 0]%N /\ predecessors (o_graph (fst r)) 0%N = [2%N].
+Proof. vm_compute. repeat split. Qed.
+
+(* ---- the same facts about Store.GC as translated on this run ---- *)
+Lemma gc_save_after_restore_true : gc_save_after_restore = true.
+Proof. vm_compute. reflexivity. Qed.
+
+Lemma store_history_exact_src :
+  forall (content : node -> list node) (isman : node -> bool),
+    (forall p, content p <> [] -> isman p = true) ->
+    forall fuel ops n,
+      let s := fst (orun true gc_save_after_restore content isman fuel empty_store ops) in
+      NoDup (predecessors (o_graph s) n) /\
+      forall p, In p (predecessors (o_graph s) n) <-> In p (o_blobs s) /\ In n (content p).
+Proof. rewrite gc_save_after_restore_true. exact store_history_exact. Qed.
